@@ -6,6 +6,8 @@ Every statement is for all widths, indices, bounds, steps and nesting depths.
 -/
 import Hdl21Model.Lemmas.Slice
 import Hdl21Model.Lemmas.Conn
+import Hdl21Model.Lemmas.Resolve
+import Hdl21Model.Lemmas.Export
 namespace Hdl21.Props.C03
 open Hdl21
 
@@ -230,6 +232,55 @@ theorem pyBits_simple (w : Nat) (a b : Nat) (hab : a < b) (hb : b ≤ w) :
     omega
   simp only [pyBits, Option.getD_none, pyAdjust, hA, hB, hL, arith]
   simp
+
+/-! ### Nested connectables: width, concatenation, and the SliceResolver -/
+
+/-- The reported width of any connectable (signal, slice, concatenation, arbitrarily nested) is the
+    number of bits it denotes, and it has a denotation whenever it has a width. -/
+theorem width_is_length (c : SConn) (w : Nat) (h : c.width = .ok w) :
+    ∃ bs, c.denote = .ok bs ∧ bs.length = w := width_denote c w h
+
+/-- `Concat(a, b, …)` is list concatenation with `a`'s bits lowest. -/
+theorem concat_is_append (a b : SConn) (as bs : List Bit) (ha : a.denote = .ok as) (hb : b.denote = .ok bs) :
+    (SConn.concat [a, b]).denote = .ok (as ++ bs) := by
+  rw [denote_concat, denoteList_cons, ha, denoteList_cons, hb, denoteList_nil]; simp
+
+/-- **Resolving nested slices and concatenations down to signal-level slices does not change the
+    selected bit sequence** — for every nesting depth, width, step and sign, and every fuel. -/
+theorem resolve_preserves_bits (fuel : Nat) (c r : SConn) (bs : List Bit)
+    (h : resolveSliceable fuel c = .ok r) (hd : c.denote = .ok bs) : r.denote = .ok bs :=
+  (resolve_sound fuel).2.2.1 c r bs h hd
+
+/-- … and what it returns consists only of signals and slices taken directly from signals. -/
+theorem resolve_flat (fuel : Nat) (c r : SConn) (h : resolveSliceable fuel c = .ok r) :
+    r.exportable = true := (Hdl21.resolve_flat fuel).2.2.1 c r h
+
+/-- No exported slice leaves its signal: whatever `export_slice` writes for a slice of a `w`-bit
+    signal satisfies `bot ≤ top < w`. -/
+theorem exported_bits_in_range (n : String) (w : Nat) (idx : Index) (t : Pkg.PTarget)
+    (h : exportTarget (.slice (.sig n w) idx) = .ok t) :
+    ∃ top bot, t = .slice n top bot ∧ bot ≤ top ∧ top < w := by
+  rw [exportTarget] at h
+  simp only [bind, Except.bind] at h
+  cases hi : sliceInner w idx with
+  | error e => simp [hi] at h
+  | ok inner =>
+    simp only [hi] at h
+    split at h
+    · cases h
+    · rename_i hstep
+      injection h with h
+      have wf := sliceInner_wf w idx inner hi
+      have h1 := wf.bot_ge
+      have h2 := wf.top_le
+      have hn := wf.n_pos
+      have hs1 : inner.step = 1 := by
+        by_cases hh : inner.step = 1
+        · exact hh
+        · exact absurd hh (by simpa using hstep)
+      have hp := wf.pos (by omega)
+      rw [hs1] at hp
+      exact ⟨_, _, h.symm, by omega, by omega⟩
 
 /-! ### Non-vacuity -/
 example : sliceInner 4 (.range (some 1) none (some 2)) =
